@@ -148,13 +148,16 @@ theorem no_loop_once_engine_history (rules : List CRule) (hops : List HOp) :
 
 /-- **no_loop_once_between_resets, per rule NAME, on the two map engines.**  One `TypedReteUlEngine` (`typed = true`) or
 `ReteUlEngine` (after fix-C07c) with ANY list of named rules — the same name may be registered any number of times, with any
-saliences — driven through ANY sequence of fire_all / reset_fired_flags / set_fact calls, `<name>_fired` markers set from outside
-or by a rule's action during a cycle included: walking through the names returned by the successive `fire_all` calls, a name all
-of whose registrations are no-loop never appears a second time unless `reset_fired_flags` came in between, and every call returns
+saliences — driven through ANY sequence of fire_all / reset_fired_flags / set_fact calls, `<name>_fired` markers set to ANY value
+(codes of `markerFired`: "true", "false", "", "0", "TRUE", " true", typed Boolean / Integer / Null …) from outside or by a rule's
+action during a cycle included: walking through the names returned by the successive `fire_all` calls, a name all
+of whose registrations are no-loop never appears a second time unless `reset_fired_flags` came in between or the name's own
+`<name>_fired` fact was overwritten (caller / a rule's action) with a value the engine does not read as fired, and every call returns
 at most 100 · (number of registrations) names.  This is the predicate `mhistOk` the driver evaluates on the implementation's
 observations of the `M T` / `M U` cases. -/
 theorem no_loop_once_named_history (typed : Bool) (rules : List NRule) (a b : Int) (ops : List MOp) :
-    mhistOk (nameNoLoop rules) ((if typed then typedBound else ulBound) * rules.length) [] ops
+    mhistOk (nameNoLoop rules) (clearedBy (markerFired typed) rules) (markerFired typed)
+      ((if typed then typedBound else ulBound) * rules.length) [] ops
       (mtrace typed rules { a := a, b := b } ops) = true :=
   mhistOk_trace typed rules ops { a := a, b := b } [] (by intro n hn; simp at hn)
 
@@ -205,5 +208,11 @@ def dup0 : List NRule := [{ name := 0, prio := 5, noLoop := true, ck := false, l
 example : mtrace true dup0 { a := 0, b := 0 } [.fire, .fire, .reset, .fire] = [.fired [0] 1 0, .fired [] 1 0, .unit, .fired [0] 2 0] := by decide
 example : mtrace false dup0 { a := 0, b := 0 } [.fire, .fire, .reset, .fire] = [.fired [0] 1 0, .fired [] 1 0, .unit, .fired [0] 2 0] := by decide
 example : nameNoLoop dup0 0 = true := by decide
+-- marker values: a marker preset to "false" (code 2) before the first call does not stop the rule and is overwritten by the
+-- firing: the second call fires nothing, on both engines; "TRUE" (code 6) is read as fired by the typed engine only
+example : mtrace false dup0 { a := 0, b := 0 } [.marker 0 2, .fire, .fire] = [.unit, .fired [0] 1 0, .fired [] 1 0] := by decide
+example : mtrace true dup0 { a := 0, b := 0 } [.marker 0 2, .fire, .fire] = [.unit, .fired [0] 1 0, .fired [] 1 0] := by decide
+example : mtrace false dup0 { a := 0, b := 0 } [.marker 0 6, .fire] = [.unit, .fired [0] 1 0] := by decide
+example : mtrace true dup0 { a := 0, b := 0 } [.marker 0 6, .fire] = [.unit, .fired [] 0 0] := by decide
 
 end C07
